@@ -22,6 +22,7 @@ def run(prog, tier, extra=None):
     R5 = res.rule("C08.winner-first-match", "the winning transaction of the router lottery is the first one, in block order, whose cumulative fees reach the winning nolan", floor=1)
     R4 = res.rule("C08.halving", "routing work halves exactly len(path) - 1 times", floor=1)
     R6 = res.rule("C08.work-misordered", "the required-work function answers with the impossible amount unless the block's timestamp is later than its parent's", floor=1)
+    R7 = res.rule("C08.unrouted-types-no-work", "a transaction type whose routing path is never verified (block-made: ATR, Fee, Issuance, SPV) contributes no routing work", floor=4)
     R3 = res.rule("C08.routing-path", "a false validate_routing_path rejects the transaction", floor=1)
     bv = BlockValidate(prog)
     b, ch = bv.body, bv.ch
@@ -139,6 +140,33 @@ def run(prog, tier, extra=None):
         res.add(Finding(R6, "C08.work-misordered|bypass", "the required-work function can return an ordinary amount without having established parent timestamp < own timestamp", wfb.loc(esc[0])))
     else:
         res.sample({"rule": R6, "ordered_edges": len(ordered), "impossible_returns": [wfb.loc(x) for x in sorted(impossible)], "verdict": "ordinary amounts only behind parent < own"})
+    # R7: "routing work delivered through cryptographically valid paths". Transaction::validate checks validate_routing_path for the
+    # user types only; the block-made types skip it (and no hash covers a path attached to them). Block::generate nevertheless sums
+    # total_work_for_me over every transaction, so generate_total_work itself must give those types zero - otherwise a producer attaches
+    # unsigned hops to the ATR transactions of its own block and meets any work requirement for free.
+    from ..fields import place_has_field as _phf7
+    gw = prog.body(CORE + "consensus::transaction::Transaction::generate_total_work")
+    if gw is None:
+        raise LookupError("Transaction::generate_total_work not found")
+    chw7 = Chaser(gw)
+    nonzero7 = set()
+    for bb, blk in enumerate(gw.blocks):
+        for st in blk["s"]:
+            if st[0] == "=" and _phf7(st[1], "transaction::Transaction", "total_work_for_me") is not None:
+                rv = st[2]
+                is_zero = rv[0] == "use" and rv[1][0] == "k" and rv[1][1].get("v") == 0
+                if not is_zero:
+                    nonzero7.add(bb)
+    for v7 in ("ATR", "Fee", "Issuance", "SPV"):
+        res.instance(R7)
+        known7 = {}
+        dead7 = gate.edges_not_taken_when(prog, gw, chw7, "transaction::TransactionType", "transaction_type", v7, known=known7)
+        hit7 = Explorer(gw, fixed_locals=dict(known7)).explore(0, deleted_edges=dead7, accept=lambda bb, env: "work" if bb in nonzero7 else None)
+        if hit7:
+            res.add(Finding(R7, "C08.unrouted-types-no-work|%s" % v7, "Transaction::generate_total_work can credit routing work for a transaction of type %s, whose routing path Transaction::validate "
+                            "never verifies: hops with made-up signatures on such transactions count towards the block's work requirement" % v7, gw.loc(sorted(p_[-1] for p_ in hit7.values())[0])))
+        else:
+            res.sample({"rule": R7, "type": v7, "verdict": "no work credited"})
     # R3
     tv = prog.body(CORE + "consensus::transaction::Transaction::validate")
     for s in gate.verdict_sites(tv, lambda n: n.endswith("Transaction::validate_routing_path")):
